@@ -872,7 +872,8 @@ def run(ctx):
     ctx.res.sample({'case': cases[-1], 'choices': [], 'note': 'default schedule of the simplest case'})
     ctx.meta.update(
         rule=('cases = N concurrent builds x UTXO set {N-1, N, N+1 equal coins; one big + dust; coins that only pairwise '
-              'cover} x strategy x outcome vector over {hold, release_tx, broadcast_or_release with failing/accepting '
+              'cover; mixed confirmation states; confirmed-too-small + unconfirmed-plenty; all unconfirmed; small coin U1 + '
+              'N-1 / N coins with build 0 output-less or an abandon (>= 2 funding rounds) against ordinary payments} x strategy x outcome vector over {hold, release_tx, broadcast_or_release with failing/accepting '
               'server} x {no fault, cancel build 0 at any boundary} x {all start together, last build arrives at any '
               'boundary}; per case every choice sequence over {start order of distinct builds, STEP, JOB_RUN, JOB_DONE, '
               'START, NET, CANCEL} (N<=4), or all with <= d deviations (N in {6,12}).  states = distinct canonical '
